@@ -133,8 +133,11 @@ class IpcCommand:
             return 0
         elif isinstance(ret, tuple):
             code, response = ret
+            response = str(response).replace("\n", " ")
             return f"{code}\x07{response}"
         elif isinstance(ret, (int, str)):
+            # the bash side reads exactly one line per reply
+            ret = str(ret).replace("\n", " ")
             return f"0\x07{ret}"
         raise TypeError(f"unsupported return status type: {type(ret)}")
 
@@ -471,7 +474,7 @@ class _InstallWrapper(IpcCommand):
                 sources = [path for path, _ in files_group]
                 command = ["install"] + self.opts.insoptions + sources + [dest]
                 ret, output = spawn.spawn_get_output(command, collect_fds=(2,))
-                if not ret:
+                if ret:
                     raise IpcCommandError("\n".join(output), code=ret)
 
     @coroutine
@@ -507,7 +510,7 @@ class _InstallWrapper(IpcCommand):
             dirs = self._prefix_targets(dirs, files=False)
             command = ["install", "-d"] + self.opts.diroptions + list(dirs)
             ret, output = spawn.spawn_get_output(command, collect_fds=(2,))
-            if not ret:
+            if ret:
                 raise IpcCommandError("\n".join(output), code=ret)
 
     @coroutine
